@@ -18,8 +18,9 @@ CHECKS["C13"] = dict(
     technique="whole-package effect analysis: who-may-write tracked fields, may-alias analysis of run lists and attribute dicts, memo-accessor discipline; abstract interpretation of a catalogue of straight-line programs over a value pool with re-observation of every earlier value",
     text="Effect analysis over every function of the package: stores to FmtStr/Chunk fields only in __init__ or in the "
          "slot's own memo accessor; no in-place mutation of any list that may alias a .chunks run list or of any dict that "
-         "may alias a run's attributes; each memo accessor stores the complete value once, computed from self.chunks only, "
-         "and returns straight after; FrozenAttributes rejects every dict mutator; FmtStr.__setitem__ raises. These are "
+         "may alias a run's attributes; each memo accessor stores the complete value once, computed from the immutable fields of its class only, "
+         "and returns straight after - never stores and then raises (the memo table is keyed by class and slot; a new slot a class "
+         "initialises to None and fills in one method is held to the same discipline); FrozenAttributes rejects every dict mutator; FmtStr.__setitem__ raises. These are "
          "exactly the ways a pre-existing value or a memoised view can change, so for this property the structural "
          "clauses cover the statement; what is trusted is Python's copying semantics. In addition (bounded catalogue): about 750 "
          "straight-line programs over a pool of four values built from 28 public operations are interpreted, every earlier value "
@@ -240,7 +241,10 @@ CHECKS["C06"] = dict(
          "* 0..3, len(), and join of every list of up to 3 items of four kinds under a plain, an empty and a formatted separator are "
          "evaluated from the source and compared with the SAME operation of CPython on the plain text (characters, IndexError) and "
          "on the list of per-character (character, formatting) cells (formatting carried along; plain str characters "
-         "unformatted). The oracle is Python's str / list semantics, nothing is re-implemented.",
+         "unformatted). The oracle is Python's str / list semantics, nothing is re-implemented. Every operation is also run on "
+         "operands whose memoised views (.s, len, width, terminal string) were filled first; every result's own .s, len() and str() "
+         "(what a terminal shows, through the reference SGR machine) must agree with its runs; every FmtStr operand must read the "
+         "same after the operation (L8).",
     note="trusted: the evaluator of sa/; not decided: longer values, slice steps (NotImplementedError by design), larger repeat counts",
     design="DESIGN.md section 3 C06", bounded=True)
 CHECKS["C09"] = dict(
@@ -249,7 +253,10 @@ CHECKS["C09"] = dict(
          "new values (empty and non-empty str, one- and two-run FmtStr, empty FmtStr, FmtStr without runs) and every 0 <= start <= "
          "end <= len+2 as well as end omitted, splice(new, start, end) is evaluated from the source and compared with "
          "cells(f)[:start] + cells(new) + cells(f)[end:] (Python list slicing as oracle); append(x) is splice at the end; the "
-         "receiver reads the same (cells and terminal string) before and after.",
+         "receiver reads the same (cells and terminal string) before and after. Every call is repeated with receiver and new value "
+         "looked at first (memoised views filled); new values include plain strs of control, zero-width and escape characters "
+         "(newline + tab, a lone combining mark, ESC O P, 8-bit CSI) which are still unformatted characters; the result's own .s, "
+         "len(), str() and full slice must agree with its runs.",
     note="trusted: the evaluator of sa/; not decided: longer values, start > end, negative positions",
     design="DESIGN.md section 3 C09", bounded=True)
 
@@ -259,7 +266,8 @@ CHECKS["C10"] = dict(
          "into two runs at every position: f.width is the number of columns the characters occupy, width_at_offset(n) the number the "
          "first n occupy for every n, and for every column range 0 <= a <= b <= width+2 width_aware_slice(a:b) has the width of the "
          "requested columns that exist, holds every character lying wholly inside with its formatting and a space with the "
-         "character's formatting for a double-width character cut by either edge.",
+         "character's formatting for a double-width character cut by either edge. Two-run values are also arrived at through a "
+         "history (an operand whose views were memoised, then + with a plain str on either side or another looked-at value).",
     note="ASSUMPTION: cwcwidth (a compiled extension outside the analysed source) agrees with the wcwidth package on this alphabet; "
          "trusted: the evaluator of sa/; not decided: longer texts, the position of a combining character whose base is cut",
     design="DESIGN.md section 3 C10", bounded=True)
@@ -269,8 +277,9 @@ CHECKS["C11"] = dict(
          "with empty runs inserted, and columns 2..5: every line is a FmtStr, none wider than the limit, every line but the last "
          "exactly as wide, none empty; with padding removed the lines concatenated are the value's characters in order with "
          "their formatting; the only additions are single spaces ending a line that is one column short where the next character "
-         "is double-width, formatted like that character; columns < 2 raises ValueError. Clauses are checked on the output, the "
-         "wrapping is not re-implemented.",
+         "is double-width, formatted like that character; columns < 2 raises ValueError. Values that hold the same run object "
+         "several times in a row (f * k) are included; two lazy iterators over values that share runs, consumed alternately, must "
+         "each give what they give alone (S5). Clauses are checked on the output, the wrapping is not re-implemented.",
     note="ASSUMPTION: cwcwidth agrees with the wcwidth package on this alphabet; trusted: the evaluator of sa/ (generators included); "
          "not decided: longer texts and larger limits",
     design="DESIGN.md section 3 C11", bounded=True)
@@ -282,9 +291,11 @@ CHECKS["C16"] = dict(
          "starting / ending with whitespace; the non-blank characters of all lines in order are those of the text with their "
          "formatting; words on a line are separated by exactly one space whose formatting is that of the whitespace it replaces "
          "when that is uniform and never an attribute none of it had; a break falls between two words only when the next did not "
-         "fit; a longer word is cut into full-length pieces; a text without words gives no lines. Clauses are checked on the "
-         "output, the wrapping is not re-implemented.",
-    note="trusted: the evaluator of sa/, str.split's notion of a word; not decided: longer texts, other whitespace kinds",
+         "fit; a longer word is cut into full-length pieces; a text without words gives no lines. Layouts include an empty run "
+         "inside a gap and gaps that carry different values of the same attribute; texts include Unicode whitespace (U+3000, "
+         "U+2003, U+2028, U+00A0, U+001C); a second call in the same process must obey the same clauses whatever the first "
+         "one left behind (W7). Clauses are checked on the output, the wrapping is not re-implemented.",
+    note="trusted: the evaluator of sa/, str.split's notion of a word; not decided: longer texts, whitespace kinds beyond the sampled ones",
     design="DESIGN.md section 3 C16", bounded=True)
 
 NOT_APPLICABLE = []
